@@ -219,6 +219,9 @@ func pointDegree(context *api.Context, point b6.Feature) (int, error) {
 
 // Return the length of the given path in meters.
 func pathLengthMeters(context *api.Context, path b6.Geometry) (float64, error) {
+	if err := expectPath(path); err != nil {
+		return 0.0, err
+	}
 	return b6.AngleToMeters(path.Polyline().Length()), nil
 }
 
